@@ -34,10 +34,10 @@ Section Table.
   Local Notation elp := (elp p x y).
 
   (* what the closed-form scheme is derived from *)
-  Hypothesis Sbase : forall k, Tf 0 0 k = vals (BV (k - 2)).
-  Hypothesis SRj : forall j k, (2 <= j)%Z ->
+  Hypothesis Sbase : forall k, (1 <= k)%Z -> Tf 0 0 k = vals (BV (k - 2)).
+  Hypothesis SRj : forall j k, (2 <= j)%Z -> (2 <= k)%Z ->
     Tf 0 j k = Tf 0 (j - 2) k - IZR (2 * j - 1) / (2 * y) * Tf 0 (j - 1) (k - 1).
-  Hypothesis SRi : forall i j k, (1 <= i)%Z -> (1 <= j)%Z ->
+  Hypothesis SRi : forall i j k, (1 <= i)%Z -> (1 <= j)%Z -> (2 <= k)%Z ->
     Tf i j k = IZR (2 + j - i - k) / (2 * x) * Tf (i - 1) j (k - 1) - y / x * Tf (i - 1) (j - 1) k + p / x * Tf (i - 1) j (k + 1).
 
   Variable tab : list (Z * list (basis * rexpr)).
@@ -71,7 +71,8 @@ Section Table.
       pose proof (found_ok c Hin) as Ok. rewrite Hkey in Ok. unfold check_case in Ok.
       destruct (decode_key 0 0 k ltac:(lia) Hk) as (D1 & D2 & D3). rewrite D1, D2, D3, Hl in Ok. cbn [Z.eqb andb] in Ok.
       destruct (lc_eqb l _) eqn:E; [|discriminate]. apply (lc_eqb_sound p x y Hp Hx Hy vals) in E. rewrite E.
-      cbn [RadialSound.elc fold_right fst snd]. rewrite qmono_sound, emono_one, RMicromega.Q2R_1, Sbase. ring.
+      pose proof (found_wf c Hin) as Wc. rewrite Hkey in Wc. unfold wf_key in Wc. rewrite D1, D2, D3 in Wc.
+      cbn [RadialSound.elc fold_right fst snd]. rewrite qmono_sound, emono_one, RMicromega.Q2R_1, Sbase by lia. ring.
     - destruct (lookup_found _ _ _ _ _ Hl) as (c & Hin & Hkey & Hnc).
       pose proof (found_ok c Hin) as Ok. rewrite Hkey in Ok.
       destruct (check_case tab (key_of i j k)) eqn:V; try discriminate; try (now apply (Hanchor i j k l Hj Hk V Hl)); clear Ok;
@@ -80,7 +81,8 @@ Section Table.
         destruct ((i =? 0)%Z && (j =? 0)%Z) eqn:B.
         * apply andb_true_iff in B. destruct B as [Bi Bj]. apply Z.eqb_eq in Bi, Bj. subst i j.
           destruct (lc_eqb l _) eqn:E; [|discriminate]. apply (lc_eqb_sound p x y Hp Hx Hy vals) in E. rewrite E.
-          cbn [RadialSound.elc fold_right fst snd]. rewrite qmono_sound, emono_one, RMicromega.Q2R_1, Sbase. ring.
+          pose proof (found_wf c Hin) as Wc. rewrite Hkey in Wc. unfold wf_key in Wc. rewrite D1, D2, D3 in Wc.
+          cbn [RadialSound.elc fold_right fst snd]. rewrite qmono_sound, emono_one, RMicromega.Q2R_1, Sbase by lia. ring.
         * destruct (i =? 0)%Z; [destruct (rj_rhs tab j k) as [r|]; [destruct (lc_eqb l r)|]|destruct (ri_rhs tab i j k) as [r|]; [destruct (lc_eqb l r)|]]; discriminate.
       + (* VRj *)
         destruct ((i =? 0)%Z && (j =? 0)%Z) eqn:B; [destruct (lc_eqb l _); discriminate|].
@@ -104,7 +106,7 @@ Section Table.
           rewrite Hkb in Wb. unfold wf_key, key_of in Wb. lia. }
         rewrite (IH 0%Z (j - 2)%Z k a) by (assumption || lia).
         rewrite (IH 0%Z (j - 1)%Z (k - 1)%Z b) by (assumption || lia).
-        rewrite (SRj j k Hj2). rewrite Q2R_half, opp_IZR. field. assumption.
+        rewrite (SRj j k Hj2 Hk2). rewrite Q2R_half, opp_IZR. field. assumption.
       + (* VRi *)
         destruct ((i =? 0)%Z && (j =? 0)%Z) eqn:B; [destruct (lc_eqb l _); discriminate|].
         destruct (Z.eqb_spec i 0) as [->|Hi0]; [destruct (rj_rhs tab j k) as [r|]; [destruct (lc_eqb l r)|]; discriminate|].
@@ -126,7 +128,7 @@ Section Table.
         rewrite (IH (i - 1)%Z j (k - 1)%Z a) by (assumption || lia).
         rewrite (IH (i - 1)%Z (j - 1)%Z k b) by (assumption || lia).
         rewrite (IH (i - 1)%Z j (k + 1)%Z c') by (assumption || lia).
-        rewrite (SRi i j k ltac:(lia) Hj1). rewrite Q2R_half, RMicromega.Q2R_1.
+        rewrite (SRi i j k ltac:(lia) Hj1 Hk2). rewrite Q2R_half, RMicromega.Q2R_1.
         replace (Q2R (-1 # 1)) with (-1) by (unfold Q2R; cbn; lra). field. assumption.
   Qed.
 
